@@ -15,8 +15,9 @@ import (
 	mesos "github.com/mesos/mesos-go/api/v1/lib"
 )
 
-// Hook tasks (tasks run as hooks) at one trigger point: two of them, each ending in one of four ways - exits 0,
-// exits non-zero, is killed (involuntary termination), never reports (its timeout fires) - or the trigger command
+// Hook tasks (tasks run as hooks) at one trigger point: two of them, each ending in one of five ways - exits 0,
+// exits non-zero, is killed (involuntary termination), dies from a signal (exit code -1), never reports (its
+// timeout fires) - or the trigger command
 // itself cannot be sent. The termination reports arrive one at a time, each when the previous one has been dealt
 // with (time passes in between), a timeout fires when nothing else can happen, and a hook that timed out may still
 // report afterwards. Whatever the combination: the core survives (no panic), exactly the hooks that did not exit 0
@@ -44,6 +45,7 @@ func HarnessHookTasks() {
 		exitsZero = iota
 		exitsNonZero
 		killed
+		signalled // the process died from a signal: the executor reports exit code -1 as a voluntary termination
 		silent
 	)
 	hooks := task.Tasks{world.Tasks[0], world.Tasks[1]}
@@ -60,6 +62,8 @@ func HarnessHookTasks() {
 			e.ExitCode, e.VoluntaryTermination = 1, true
 		case killed:
 			e.VoluntaryTermination = false
+		case signalled:
+			e.ExitCode, e.VoluntaryTermination = -1, true
 		}
 		env.NotifyEvent(e)
 	}
